@@ -462,15 +462,21 @@ class TrimWhitespaces(FullAstVisitor):
 
     def visit_FunctionNode(self, node: mparser.FunctionNode) -> None:
         if node.func_name.value == 'files':
+            while len(node.args.arguments) == 1 and not node.args.kwargs:
+                arg = node.args.arguments[0]
+                if not isinstance(arg, mparser.ArrayNode):
+                    break
+                if arg.lbracket.whitespaces and arg.lbracket.whitespaces.value.strip():
+                    break
+                # files([...]) -> files(...); a comment after the ']' now follows the last argument
+                trailing = ''.join(n.whitespaces.value for n in (arg.rbracket, arg, *node.args.commas, node.args) if n.whitespaces)
+                node.args = arg.args
+                if trailing.strip():
+                    self.enter_node(node.args)
+                    node.args.whitespaces.value += trailing
+
             if self.config.sort_files:
                 self.sort_arguments(node.args)
-
-            if len(node.args.arguments) == 1 and not node.args.kwargs:
-                arg = node.args.arguments[0]
-                if isinstance(arg, mparser.ArrayNode):
-                    if not arg.lbracket.whitespaces or not arg.lbracket.whitespaces.value.strip():
-                        # files([...]) -> files(...)
-                        node.args = arg.args
 
         super().visit_FunctionNode(node)
         self.move_whitespaces(node.rpar, node)
